@@ -42,6 +42,7 @@ type inliner struct {
 	changed bool
 	caller  *ast.FuncDecl
 	used    map[string]bool // identifiers used in the caller
+	scope   map[string]bool // variables (and local types) visible at the statement being processed
 }
 
 func nodeText(fset *token.FileSet, n ast.Node) string {
@@ -161,7 +162,21 @@ func (in *inliner) helperOf(call *ast.CallExpr) *ast.FuncDecl {
 
 // bind returns the substitution of the helper's parameters (and receiver) by the call's arguments, the binding
 // statements for arguments that are not simple, and whether the call can be expanded.
-func (in *inliner) bind(h *ast.FuncDecl, call *ast.CallExpr) (map[string]string, []string, bool) {
+func (in *inliner) bind(h *ast.FuncDecl, call *ast.CallExpr, lhs []string, tok token.Token) (map[string]string, []string, bool) {
+	// A parameter the helper assigns to is the helper's own copy: its argument may be used in its place only when the
+	// caller's variable is overwritten by the call's result anyway (x = h(x, ...)); otherwise it gets a fresh variable.
+	overwritten := func(arg ast.Expr) bool {
+		id, ok := arg.(*ast.Ident)
+		if !ok || tok != token.ASSIGN {
+			return false
+		}
+		for _, l := range lhs {
+			if l == id.Name {
+				return true
+			}
+		}
+		return false
+	}
 	subst := map[string]string{}
 	var binds []string
 	var params []string
@@ -187,7 +202,7 @@ func (in *inliner) bind(h *ast.FuncDecl, call *ast.CallExpr) (map[string]string,
 			return nil, nil, false
 		}
 		if len(h.Recv.List[0].Names) == 1 {
-			if !simpleArg(sel.X) {
+			if !simpleArg(sel.X) || assignedLater(h.Body.List, h.Recv.List[0].Names[0].Name) {
 				return nil, nil, false
 			}
 			subst[h.Recv.List[0].Names[0].Name] = nodeText(in.fset, sel.X)
@@ -198,7 +213,7 @@ func (in *inliner) bind(h *ast.FuncDecl, call *ast.CallExpr) (map[string]string,
 			continue
 		}
 		a := call.Args[i]
-		if simpleArg(a) {
+		if simpleArg(a) && (!assignedLater(h.Body.List, p) || overwritten(a)) {
 			subst[p] = nodeText(in.fset, a)
 		} else {
 			name := p
@@ -362,6 +377,112 @@ func repOpt(rep func(ast.Expr) ast.Expr, e ast.Expr) ast.Expr {
 	return rep(e)
 }
 
+// freeIdents: identifiers a helper uses that are neither its parameters, receiver, results nor locals - package-level
+// names (functions, constants, imported packages, types). Selected fields and composite-literal keys do not count.
+func freeIdents(h *ast.FuncDecl) map[string]bool {
+	bound := map[string]bool{}
+	addFields := func(fl *ast.FieldList) {
+		if fl != nil {
+			for _, f := range fl.List {
+				for _, n := range f.Names {
+					bound[n.Name] = true
+				}
+			}
+		}
+	}
+	addFields(h.Recv)
+	addFields(h.Type.Params)
+	addFields(h.Type.Results)
+	ast.Inspect(h.Body, func(n ast.Node) bool {
+		switch x := n.(type) {
+		case *ast.AssignStmt:
+			if x.Tok == token.DEFINE {
+				for _, l := range x.Lhs {
+					if id, ok := l.(*ast.Ident); ok {
+						bound[id.Name] = true
+					}
+				}
+			}
+		case *ast.ValueSpec:
+			for _, id := range x.Names {
+				bound[id.Name] = true
+			}
+		case *ast.RangeStmt:
+			if x.Tok == token.DEFINE {
+				for _, e := range []ast.Expr{x.Key, x.Value} {
+					if id, ok := e.(*ast.Ident); ok {
+						bound[id.Name] = true
+					}
+				}
+			}
+		}
+		return true
+	})
+	free := map[string]bool{}
+	var visit func(n ast.Node) bool
+	visit = func(n ast.Node) bool {
+		switch x := n.(type) {
+		case *ast.SelectorExpr:
+			ast.Inspect(x.X, visit)
+			return false
+		case *ast.KeyValueExpr:
+			ast.Inspect(x.Value, visit)
+			return false
+		case *ast.Ident:
+			if !bound[x.Name] && x.Name != "_" {
+				free[x.Name] = true
+			}
+		}
+		return true
+	}
+	ast.Inspect(h.Body, visit)
+	return free
+}
+
+// captured: would a free identifier of the helper be captured by a variable visible at the call site?
+func (in *inliner) captured(h *ast.FuncDecl) bool {
+	for name := range freeIdents(h) {
+		if in.scope[name] {
+			return true
+		}
+	}
+	return false
+}
+
+func declaredBy(s ast.Stmt, into map[string]bool) {
+	switch x := s.(type) {
+	case *ast.AssignStmt:
+		if x.Tok == token.DEFINE {
+			for _, l := range x.Lhs {
+				if id, ok := l.(*ast.Ident); ok {
+					into[id.Name] = true
+				}
+			}
+		}
+	case *ast.DeclStmt:
+		if gd, ok := x.Decl.(*ast.GenDecl); ok {
+			for _, sp := range gd.Specs {
+				switch v := sp.(type) {
+				case *ast.ValueSpec:
+					for _, id := range v.Names {
+						into[id.Name] = true
+					}
+				case *ast.TypeSpec:
+					into[v.Name.Name] = true
+				}
+			}
+		}
+	}
+}
+
+func copyScope(m map[string]bool) map[string]bool {
+	n := map[string]bool{}
+	for k := range m {
+		n[k] = true
+	}
+	return n
+}
+
 func resultTypes(h *ast.FuncDecl, fset *token.FileSet) []string {
 	var ts []string
 	if h.Type.Results != nil {
@@ -380,7 +501,7 @@ func resultTypes(h *ast.FuncDecl, fset *token.FileSet) []string {
 
 // expandAssign: lhs tok h(args)  ->  statements
 func (in *inliner) expandAssign(lhs []ast.Expr, tok token.Token, call *ast.CallExpr, h *ast.FuncDecl) ([]ast.Stmt, bool) {
-	if !simpleBody(h) {
+	if !simpleBody(h) || in.captured(h) {
 		return nil, false
 	}
 	types := resultTypes(h, in.fset)
@@ -394,7 +515,11 @@ func (in *inliner) expandAssign(lhs []ast.Expr, tok token.Token, call *ast.CallE
 			}
 		}
 	}
-	subst, binds, ok := in.bind(h, call)
+	var lhsNames []string
+	for _, l := range lhs {
+		lhsNames = append(lhsNames, nodeText(in.fset, l))
+	}
+	subst, binds, ok := in.bind(h, call, lhsNames, tok)
 	if !ok {
 		return nil, false
 	}
@@ -484,10 +609,10 @@ func (in *inliner) exprHelper(call *ast.CallExpr) ast.Expr {
 		return nil
 	}
 	rs, ok := h.Body.List[0].(*ast.ReturnStmt)
-	if !ok || len(rs.Results) != 1 {
+	if !ok || len(rs.Results) != 1 || in.captured(h) {
 		return nil
 	}
-	subst, binds, ok := in.bind(h, call)
+	subst, binds, ok := in.bind(h, call, nil, token.ILLEGAL)
 	if !ok || len(binds) > 0 {
 		return nil
 	}
@@ -568,51 +693,110 @@ func (in *inliner) callOf(s ast.Stmt) (*ast.AssignStmt, *ast.CallExpr, *ast.Func
 }
 
 func (in *inliner) inlineList(list []ast.Stmt) []ast.Stmt {
+	saved := in.scope
+	in.scope = copyScope(saved)
+	defer func() { in.scope = saved }()
+	nested := func(l []ast.Stmt, extra ...ast.Stmt) []ast.Stmt {
+		outer := in.scope
+		in.scope = copyScope(outer)
+		for _, e := range extra {
+			if e != nil {
+				declaredBy(e, in.scope)
+			}
+		}
+		r := in.inlineList(l)
+		in.scope = outer
+		return r
+	}
 	var out []ast.Stmt
 	for _, s := range list {
 		if as, call, h := in.callOf(s); as != nil {
 			if st, ok := in.expandAssign(as.Lhs, as.Tok, call, h); ok {
-				out = append(out, in.inlineList(st)...)
+				st = in.inlineListSameScope(st)
+				out = append(out, st...)
 				continue
 			}
 		}
 		switch x := s.(type) {
 		case *ast.IfStmt:
+			first := true
+			var inits []ast.Stmt
 			for cur := x; cur != nil; {
-				if cur.Init != nil && cur == x {
+				if cur.Init != nil && first {
 					if as, call, h := in.callOf(cur.Init); as != nil {
 						if st, ok := in.expandAssign(as.Lhs, as.Tok, call, h); ok {
-							out = append(out, in.inlineList(st)...)
+							st = in.inlineListSameScope(st)
+							out = append(out, st...)
 							cur.Init = nil
 						}
 					}
 				}
-				cur.Body.List = in.inlineList(cur.Body.List)
+				first = false
+				if cur.Init != nil {
+					inits = append(inits, cur.Init)
+				}
+				cur.Body.List = nested(cur.Body.List, inits...)
 				switch e := cur.Else.(type) {
 				case *ast.IfStmt:
 					cur = e
 				case *ast.BlockStmt:
-					e.List = in.inlineList(e.List)
+					e.List = nested(e.List, inits...)
 					cur = nil
 				default:
 					cur = nil
 				}
 			}
 		case *ast.RangeStmt:
-			x.Body.List = in.inlineList(x.Body.List)
+			var decl ast.Stmt
+			if x.Tok == token.DEFINE {
+				decl = &ast.AssignStmt{Lhs: nonNil(x.Key, x.Value), Tok: token.DEFINE}
+			}
+			x.Body.List = nested(x.Body.List, decl)
 		case *ast.ForStmt:
-			x.Body.List = in.inlineList(x.Body.List)
+			x.Body.List = nested(x.Body.List, x.Init)
 		case *ast.BlockStmt:
-			x.List = in.inlineList(x.List)
+			x.List = nested(x.List)
 		case *ast.SwitchStmt:
 			for _, cc := range x.Body.List {
 				if c, ok := cc.(*ast.CaseClause); ok {
-					c.Body = in.inlineList(c.Body)
+					c.Body = nested(c.Body, x.Init)
 				}
 			}
 		}
 		in.inlineExprs(s)
+		declaredBy(s, in.scope)
 		out = append(out, s)
+	}
+	return out
+}
+
+// inlineListSameScope processes statements produced by an expansion: they belong to the list being processed.
+func (in *inliner) inlineListSameScope(st []ast.Stmt) []ast.Stmt {
+	var out []ast.Stmt
+	for _, s := range st {
+		r := in.inlineListNoCopy([]ast.Stmt{s})
+		out = append(out, r...)
+	}
+	return out
+}
+
+func (in *inliner) inlineListNoCopy(list []ast.Stmt) []ast.Stmt {
+	// same as inlineList for one statement, but declarations stay visible to the statements that follow
+	scope := in.scope
+	r := in.inlineList(list)
+	for _, s := range r {
+		declaredBy(s, scope)
+	}
+	in.scope = scope
+	return r
+}
+
+func nonNil(es ...ast.Expr) []ast.Expr {
+	var out []ast.Expr
+	for _, e := range es {
+		if e != nil {
+			out = append(out, e)
+		}
 	}
 	return out
 }
@@ -773,6 +957,7 @@ func inlineHelpers(fset *token.FileSet, files []*ast.File, names []string) (*tok
 			delete(in.helpers, name)
 			in.caller = h
 			in.used = identsOf(h)
+			in.scope = funcScope(h)
 			h.Body.List = in.inlineList(h.Body.List)
 			in.helpers[name] = saved
 		}
@@ -785,6 +970,7 @@ func inlineHelpers(fset *token.FileSet, files []*ast.File, names []string) (*tok
 			}
 			in.caller = fd
 			in.used = identsOf(fd)
+			in.scope = funcScope(fd)
 			fd.Body.List = in.inlineList(fd.Body.List)
 		}
 	}
@@ -810,6 +996,20 @@ func inlineHelpers(fset *token.FileSet, files []*ast.File, names []string) (*tok
 		nfiles = append(nfiles, nf)
 	}
 	return nfset, nfiles, true
+}
+
+func funcScope(fd *ast.FuncDecl) map[string]bool {
+	m := map[string]bool{}
+	for _, fl := range []*ast.FieldList{fd.Recv, fd.Type.Params, fd.Type.Results} {
+		if fl != nil {
+			for _, f := range fl.List {
+				for _, n := range f.Names {
+					m[n.Name] = true
+				}
+			}
+		}
+	}
+	return m
 }
 
 func identsOf(fd *ast.FuncDecl) map[string]bool {
